@@ -207,3 +207,136 @@ def _seq_domain(tier, seed):
 
 
 _R["ecdsa.der.encode_sequence"].domain = _seq_domain
+
+
+# ---------------------------------------------------------------------------------------------
+# round-trip lemmas: the real decoder (inlined: completeness is not a postcondition) applied to the
+# spec encoding of any value in the domain, followed by any rest, returns exactly (value, rest)
+_DECODERS = ["ecdsa.der.read_length", "ecdsa.der.remove_integer", "ecdsa.der.remove_octet_string", "ecdsa.der.remove_sequence",
+             "ecdsa.der.remove_constructed", "ecdsa.der.remove_bitstring", "ecdsa._compat.str_idx_as_int"]
+
+
+@lemma("der.roundtrip_length", props=["C11"], inline=_DECODERS)
+def _(ex):
+    l = ex.fresh_int("l")
+    rest = ex.fresh_bytes("rest")
+    ex.assume(And_(l >= 0, l < 256 ** 126))
+    r = ex.call_noraise("decode", "ecdsa.der.read_length", ex.name_bytes(cat(S.enc_len(l), rest), "input"))
+    ex.oblige("lemma:der.roundtrip_length#value", And_(eq(r[0], l), eq(r[1], blen(S.enc_len(l)))), "lemma")
+
+
+@lemma("der.roundtrip_integer", props=["C11", "C12"], inline=_DECODERS)
+def _(ex):
+    v = ex.fresh_int("v")
+    rest = ex.fresh_bytes("rest")
+    ex.assume(And_(v >= 0, bytelen(v) + 1 < 256 ** 126))
+    r = ex.call_noraise("decode", "ecdsa.der.remove_integer", ex.name_bytes(cat(S.enc_integer(v), rest), "input"))
+    ex.oblige("lemma:der.roundtrip_integer#value", And_(eq(r[0], v), beq(r[1], rest)), "lemma")
+
+
+def _tlv_roundtrip(name, qual, enc, has_tag=False):
+    @lemma(name, props=["C11", "C09"], inline=_DECODERS)
+    def _(ex):
+        body = ex.fresh_bytes("body")
+        rest = ex.fresh_bytes("rest")
+        ex.assume(blen(body) < 256 ** 126)
+        if has_tag:
+            tag = ex.fresh_int("tag")
+            ex.assume(And_(0 <= tag, tag <= 31))
+            r = ex.call_noraise("decode", qual, ex.name_bytes(cat(enc(tag, body), rest), "input"))
+            ex.oblige("lemma:%s#value" % name, And_(eq(r[0], tag), beq(r[1], body), beq(r[2], rest)), "lemma")
+        else:
+            r = ex.call_noraise("decode", qual, ex.name_bytes(cat(enc(body), rest), "input"))
+            ex.oblige("lemma:%s#value" % name, And_(beq(r[0], body), beq(r[1], rest)), "lemma")
+
+
+_tlv_roundtrip("der.roundtrip_octet_string", "ecdsa.der.remove_octet_string", S.enc_octets)
+_tlv_roundtrip("der.roundtrip_sequence", "ecdsa.der.remove_sequence", S.enc_seq)
+_tlv_roundtrip("der.roundtrip_constructed", "ecdsa.der.remove_constructed", S.enc_ctx, has_tag=True)
+
+
+@lemma("der.roundtrip_bitstring", props=["C11", "C09"], inline=_DECODERS)
+def _(ex):
+    body = ex.fresh_bytes("body")
+    rest = ex.fresh_bytes("rest")
+    unused = ex.fresh_int("unused")
+    ex.assume(blen(body) + 1 < 256 ** 126)
+    ex.assume(S.bits_ok(body, unused))
+    mode = ex.choose(2)
+    enc = ex.name_bytes(cat(S.enc_bits(body, unused), rest), "input")
+    if mode == 0:
+        r = ex.call_noraise("decode-int", "ecdsa.der.remove_bitstring", enc, unused)
+        ex.oblige("lemma:der.roundtrip_bitstring#value-int", And_(beq(r[0], body), beq(r[1], rest)), "lemma")
+    else:
+        r = ex.call_noraise("decode-none", "ecdsa.der.remove_bitstring", enc, None)
+        ex.oblige("lemma:der.roundtrip_bitstring#value-none", And_(beq(r[0][0], body), eq(r[0][1], unused), beq(r[1], rest)), "lemma")
+
+
+# concrete instances of the round-trip lemmas (concretiser: gives a failing input when a lemma obligation is open)
+def _rt_concrete(lname, qual, cases):
+    from pyvc import bounded
+    from pyvc.check import LemmaWitness
+    from pyvc.interp import register_exc, short
+    from pyvc.contract import LEMMAS
+
+    def run(tier, seed):
+        f = bounded.get_callable(qual)
+        found = {}
+        for label, pos, expect, shown in cases(tier):
+            try:
+                r = bounded.normalise(f(*[bounded.real(x) for x in pos]))
+            except Exception as e:
+                name = "lemma:%s#%s#no-raise(%s)" % (lname, label, short(register_exc(type(e))))
+                found.setdefault(name, (LemmaWitness(qual, pos), shown, "raised %s: %s" % (type(e).__name__, str(e)[:120])))
+                continue
+            if r != expect:
+                name = "lemma:%s#%s" % (lname, "value" if label == "decode" else label.replace("decode", "value"))
+                found.setdefault(name, (LemmaWitness(qual, pos), shown, "returned %s, expected %s" % (bounded.show(r), bounded.show(expect))))
+        return found
+    LEMMAS[lname].concrete = run
+
+
+def _rests():
+    return [b"", b"\x00", b"\x30\x00", b"\xff\xff\xff"]
+
+
+def _len_cases(tier):
+    for l in D.ints_edge()[:30] + list(range(0, 700)):
+        for rest in _rests():
+            yield "decode", [S.enc_len(l) + rest], (l, len(S.enc_len(l))), dict(l=str(l), rest="hex:" + rest.hex())
+
+
+def _int_cases(tier):
+    for v in D.ints_edge() + list(range(0, 700)) + [2 ** (8 * k) - 1 for k in (126, 127, 128, 129, 255, 256, 257)] + [2 ** (8 * k - 1) for k in (127, 128, 129, 256, 257)]:
+        for rest in _rests():
+            yield "decode", [S.enc_integer(v) + rest], (v, rest), dict(v=str(v), rest="hex:" + rest.hex())
+
+
+def _body_cases(enc, with_tag=False):
+    def gen(tier):
+        for b in D.bodies():
+            for rest in _rests():
+                if with_tag:
+                    for tag in (0, 1, 30, 31):
+                        yield "decode", [enc(tag, b) + rest], (tag, b, rest), dict(tag=tag, body_len=len(b), rest="hex:" + rest.hex())
+                else:
+                    yield "decode", [enc(b) + rest], (b, rest), dict(body_len=len(b), body_head="hex:" + b[:8].hex(), rest="hex:" + rest.hex())
+    return gen
+
+
+def _bits_cases(tier):
+    for b in D.bodies() + [b"\xf0", b"\x80", b"\xab\xc0"]:
+        for u in range(8):
+            if u and (not b or b[-1] % (1 << u)):
+                continue
+            for rest in _rests():
+                yield "decode-int", [S.enc_bits(b, u) + rest, u], (b, rest), dict(body_len=len(b), unused=u, rest="hex:" + rest.hex())
+                yield "decode-none", [S.enc_bits(b, u) + rest, None], ((b, u), rest), dict(body_len=len(b), unused=u, rest="hex:" + rest.hex())
+
+
+_rt_concrete("der.roundtrip_length", "ecdsa.der.read_length", _len_cases)
+_rt_concrete("der.roundtrip_integer", "ecdsa.der.remove_integer", _int_cases)
+_rt_concrete("der.roundtrip_octet_string", "ecdsa.der.remove_octet_string", _body_cases(S.enc_octets))
+_rt_concrete("der.roundtrip_sequence", "ecdsa.der.remove_sequence", _body_cases(S.enc_seq))
+_rt_concrete("der.roundtrip_constructed", "ecdsa.der.remove_constructed", _body_cases(S.enc_ctx, True))
+_rt_concrete("der.roundtrip_bitstring", "ecdsa.der.remove_bitstring", _bits_cases)
